@@ -276,6 +276,10 @@ pub mod atomics;
 
 mod common;
 mod macros;
+
+#[cfg(metrics_verif)]
+#[doc(hidden)]
+pub mod verif;
 pub use self::common::*;
 
 mod cow;
